@@ -1088,8 +1088,8 @@ func TestVerif_C58(t *testing.T) {
 	st := &c58Stats{interleavings: map[uint64]struct{}{}, sampled: map[string]bool{}, maxOpen: map[int]int{}}
 	limits := []int{1, 2, 7}
 	stuck := false
-	nBubble := r.N(900, 30000)
-	nPlain := r.N(600, 20000)
+	nBubble := r.N(900, 20000)
+	nPlain := r.N(600, 12000)
 	r.Cases("bubble", nBubble, func(c *verifrt.Case) {
 		n := limits[c.Rng.IntN(3)]
 		scripts := c58Scripts(c.Rng, n)
